@@ -1,30 +1,46 @@
 --------------------------- MODULE PaymentStoreMC ---------------------------
-(* Exhaustive bounded configuration: every sequence of at most MaxOps calls  *)
-(* over Hashes x 1..NA attempt ids with the descriptor menu MCDescs.         *)
+(* Exhaustive configurations.                                                *)
+(*  - PaymentStoreMCFull.cfg (menu MCDescs): the complete state space of the *)
+(*    payment life cycle over Hashes x 1..NA attempt ids, one representative *)
+(*    route per admission class (single-shot exact / wrong amount, MPP shards*)
+(*    fitting / exceeding / other address / other total, AMP shard, blinded  *)
+(*    shards with a separate introduction node and with the final hop being  *)
+(*    the introduction node, other / missing blinded total, MPP record in a  *)
+(*    blinded route).                                                        *)
+(*  - PaymentStoreMCRoutes.cfg (menu RouteUniverse): the complete state      *)
+(*    space of ONE payment with every route shape of the universe (1..3      *)
+(*    hops, every position of the introduction node, custom records,         *)
+(*    metadata, first-hop data): every pair / triple of shapes meets as      *)
+(*    "stored in flight" x "offered", so RoundTrip and AdmitByRegistered are *)
+(*    decided for the whole universe.                                        *)
+(*  - PaymentStoreMC.cfg: call sequences of bounded length (deviation runs). *)
 EXTENDS PaymentStore
 CONSTANT MaxOps
 VARIABLE nops
 
-\* single-shot (exact / wrong amount), MPP shards (fitting, exceeding, other
-\* payment address, other total), blinded shards (fitting, other total, no total)
-MCDescs == {D("single", 0, 0, Value), D("single", 0, 0, 1),
-            D("mpp", 1, Value, 1), D("mpp", 1, Value, 2), D("mpp", 1, Value, Value),
-            D("mpp", 1, Value, Value + 1), D("mpp", 2, Value, 1), D("mpp", 1, Value + 1, 1),
-            D("blind", 0, Value, 1), D("blind", 0, Value, Value), D("blind", 0, Value + 1, 1),
-            D("blind", 0, 0, 1)}
+MCDescs == {SingleR(2, Value), SingleR(1, 1),
+            MppR(2, 1, Value, 1), MppR(3, 1, Value, 2), MppR(1, 1, Value, Value),
+            MppR(2, 1, Value, Value + 1), MppR(2, 2, Value, 1), MppR(2, 1, Value + 1, 1),
+            AmpR(2, 1, Value, 1, 1),
+            BlindR(1, 1, Value, 1), BlindR(0, 2, Value, 1), BlindR(0, 1, Value, Value),
+            BlindR(0, 2, Value + 1, 1), BlindR(1, 1, 0, 1),
+            BlindMppR(0, 2, Value, 1, 1)}
 MCReasons == {0, 1}
 
 MCInit == Init /\ nops = 0
 MCNext == nops < MaxOps /\ nops' = nops + 1 /\ Next
 MCSpec == MCInit /\ [][MCNext]_<<vars, nops>>
 
-(* Sound quotient: nothing depends on the descriptor of a failed attempt,    *)
-(* nor on kind/addr/tot of a settled one; `last` is only read primed by the  *)
-(* action properties, which TLC evaluates on every generated transition.     *)
-NormAtt(a) == IF a.st = "failed" THEN [NoAtt EXCEPT !.st = "failed"]
-              ELSE IF a.st = "settled" THEN [NoAtt EXCEPT !.st = "settled", !.amt = a.amt]
-              ELSE a
-Norm == [h \in Hashes |-> [payments[h] EXCEPT !.att = [i \in Ids |-> NormAtt(payments[h].att[i])]]]
+(* Sound quotient: nothing depends on the route of a failed attempt, only on *)
+(* the receiver amount of a settled one, and of an in-flight one only on     *)
+(* what verifyAttempt / SentAmt read off its final hop; `last` and the rest  *)
+(* of the routes are only read primed by the action properties, which TLC    *)
+(* evaluates on every generated transition.                                  *)
+Core(r) == <<Blinded(r), Final(r).ma, Final(r).mt, Final(r).tot, RAmt(r)>>
+NormAtt(a) == IF a.st \in {"none", "failed"} THEN <<a.st>>
+              ELSE IF a.st = "settled" THEN <<a.st, RAmt(a.img)>>
+              ELSE <<a.st, Core(a.img), Core(a.reg)>>
+Norm == [h \in Hashes |-> <<payments[h].ex, payments[h].fr, [i \in Ids |-> NormAtt(payments[h].att[i])]>>]
 View == <<Norm, nops>>
 \* unbounded: every reachable state of the model, whatever the length of the call sequence
 ViewFull == Norm
